@@ -51,6 +51,30 @@ type Trace struct {
 	Stdout     string
 }
 
+// HistoryOps returns, per operation of the history, the events between its
+// marker and the next one (or the begin marker).
+func (t *Trace) HistoryOps() [][]Event {
+	var out [][]Event
+	start := -1
+	end := t.Begin
+	if !t.HasBegin {
+		end = len(t.Events)
+	}
+	for i := 0; i < end; i++ {
+		ev := t.Events[i]
+		if (strings.HasPrefix(ev.Name, "faccessat") || ev.Name == "access") && len(ev.Paths) > 0 && ev.Paths[0] == MarkOp {
+			if start >= 0 {
+				out = append(out, t.Events[start+1:i])
+			}
+			start = i
+		}
+	}
+	if start >= 0 {
+		out = append(out, t.Events[start+1:end])
+	}
+	return out
+}
+
 // Window returns the events strictly between the markers.
 func (t *Trace) Window() []Event {
 	if !t.HasBegin {
